@@ -66,7 +66,7 @@ func (st *ccState) handovers(c *ccCall) []*matchRec {
 	hs := append([]*matchRec(nil), c.matches...)
 	if c.spec.mk == mkNil && c.returned && c.err == nil && !c.retNil {
 		if c.nilRet == nil {
-			c.nilRet = &matchRec{seq: c.retSeq, doneSeq: c.retSeq, t: c.retT, info: c.retInfo, ptr: c.ret, verdict: true, bytes: st.cfg.p.MsgBytes(c.ret)}
+			c.nilRet = &matchRec{seq: c.retSeq, doneSeq: c.retSeq, t: c.retT, doneT: c.retT, info: c.retInfo, ptr: c.ret, verdict: true, bytes: st.cfg.p.MsgBytes(c.ret)}
 		}
 		hs = append(hs, c.nilRet)
 	}
@@ -137,6 +137,10 @@ func (st *ccState) checkHandovers(v *vio) {
 func (st *ccState) checkTrySequences(v *vio, c *ccCall, timing bool) {
 	hs := st.handovers(c)
 	lb := c.invSeq
+	firstTx := 1 << 30
+	if ts := c.tries(); len(ts) > 0 {
+		firstTx = ts[0].tx.seq
+	}
 	for _, tr := range c.tries() {
 		var A, W []*rxRec
 		for _, r := range st.rx {
@@ -144,7 +148,13 @@ func (st *ccState) checkTrySequences(v *vio, c *ccCall, timing bool) {
 				continue
 			}
 			switch {
-			case r.seq < tr.tx.seq && (r.doneSeq == 0 || r.doneSeq >= lb):
+			// A also holds what arrived during *earlier tries of this call*: the statement speaks
+			// of the call ("arrived while that call was waiting"), and a client that keeps one
+			// registration for the whole call hands such a datagram over after the next
+			// retransmission, where the unchanged tree (one registration per try) drops it.
+			// Both are within the statement; a datagram from before the call's first
+			// transmission is not (beyond what the receive loop still had in hand).
+			case r.seq < tr.tx.seq && (r.doneSeq == 0 || r.doneSeq >= lb || r.seq > firstTx):
 				A = append(A, r)
 			case r.seq > tr.tx.seq && r.seq < tr.endSeq:
 				W = append(W, r)
@@ -258,7 +268,15 @@ func (st *ccState) oracleRouting(v *vio) {
 				}
 				m := c.matches[firstTrue]
 				for _, tx := range c.txs {
-					if tx.seq > m.doneSeq {
+					// (a transmission at the very instant of the acceptance is a tie: a client that
+					// retransmits from a goroutine of its own may have its timer fire at the instant
+					// the matcher accepts, and from outside the two cannot be ordered)
+					// Nor is it judged in runs with the stalled-task fault: a caller stalled between the
+					// matcher's verdict and telling its retransmitter to stop lets one more datagram
+					// out, a scheduling race no observer outside the matcher can see. (C10 itself says
+					// nothing about transmissions; this is C12's clause, sampled here under schedules
+					// the exact-timing C12 scenario does not have.)
+					if tx.seq > m.doneSeq && tx.t > m.doneT && !st.cfg.stall {
 						v.add("R4-tx-after-accept", "call %d: transmission at #%d after the matcher accepted at #%d", c.id, tx.seq, m.seq)
 					}
 				}
@@ -295,7 +313,7 @@ func (st *ccState) checkErrors(v *vio) {
 			continue
 		}
 		switch {
-		case p.IsNoResponse(c.err), p.IsInUse(c.err), st.hadWriteFailure(c):
+		case p.IsNoResponse(c.err), st.refused(c), st.hadWriteFailure(c):
 			continue
 		case isCtxErr(c.err) && c.spec.ck != ctxBackground:
 			continue
@@ -405,13 +423,50 @@ func (st *ccState) provenStretches(a *ccCall) []stretch {
 	return out
 }
 
-func (st *ccState) oracleRefusal(v *vio) {
+// refused reports whether a call ended with the refusal C10 speaks of ("refused with an
+// error rather than sharing responses"). The statement names no error value. nclient4
+// has a type for it; nclient6 has only a sentence, and matching that sentence made a
+// reworded message a false alarm (wave 9). So besides the typed error the refusal is
+// recognised by what it is not: an error that is none of the kinds the statements name
+// for other endings (no response, the context's error), not the consequence of an
+// injected write failure, and not returned after Close was called. Whether a refusal was
+// *justified* is R5-spurious-refusal's business, so an invented error value is still
+// reported, under that rule.
+func (st *ccState) refused(c *ccCall) bool {
+	if !c.returned || c.err == nil {
+		return false
+	}
 	p := st.cfg.p
+	if p.IsInUse(c.err) {
+		return true
+	}
+	if p.IsNoResponse(c.err) || isCtxErr(c.err) || st.hadWriteFailure(c) {
+		return false
+	}
+	for _, cl := range st.closeCalls {
+		if cl.invSeq < c.retSeq {
+			return false
+		}
+	}
+	return true
+}
+
+// idContended: some other call used b's transaction id during b's life.
+func (st *ccState) idContended(b *ccCall) bool {
+	for _, c := range st.calls {
+		if c != b && c.spec.xid == b.spec.xid && c.invSeq < b.retSeq && (!c.returned || c.retSeq > b.invSeq) {
+			return true
+		}
+	}
+	return false
+}
+
+func (st *ccState) oracleRefusal(v *vio) {
 	for _, b := range st.calls {
 		if !b.returned {
 			continue
 		}
-		refused := p.IsInUse(b.err)
+		refused := st.refused(b)
 		if refused {
 			if len(b.txs) > 0 && len(b.tries()) > 0 && false {
 				// a later try may be refused after earlier ones transmitted
@@ -420,18 +475,18 @@ func (st *ccState) oracleRefusal(v *vio) {
 				v.add("R5-refused-after-accept", "call %d was refused after its matcher accepted a message", b.id)
 			}
 			// converse: somebody else must use the id during b's life
-			other := false
-			for _, c := range st.calls {
-				if c != b && c.spec.xid == b.spec.xid && c.invSeq < b.retSeq && (!c.returned || c.retSeq > b.invSeq) {
-					other = true
-				}
-			}
-			if !other {
+			if !st.idContended(b) {
 				v.add("R5-spurious-refusal", "call %d (xid %x) was refused (%v) although no other call used that id during its life", b.id, b.spec.xid, b.err)
 			}
 			continue
 		}
-		// must b have been refused?
+		// must b have been refused? Not if its own context had already ended: then C11's
+		// "returns at once with the context's error" applies as well, the statement does not
+		// rank the two errors, and a call that neither transmitted nor was handed anything
+		// shared nothing (what it may have done to the *other* call is judged on that call).
+		if end, ok := st.ctxEnd(b); ok && end <= b.retT && isCtxErr(b.err) && len(b.txs) == 0 && len(b.matches) == 0 {
+			continue
+		}
 		for _, a := range st.calls {
 			if a == b || a.spec.xid != b.spec.xid {
 				continue
@@ -478,22 +533,39 @@ func (st *ccState) ctxEnd(c *ccCall) (time.Duration, bool) {
 // acceptableAt reports whether a datagram the call's matcher would accept was
 // delivered at exactly virtual time t (or in [from, t]).
 func (st *ccState) acceptableIn(c *ccCall, from, to time.Duration) *rxRec {
-	p := st.cfg.p
 	for _, r := range st.rx {
 		if r.t < from || r.t > to || !st.eligibleFor(c, r) || (r.doneSeq != 0 && r.doneSeq < c.invSeq) {
 			continue // the receive loop had finished with it before the call started
 		}
-		switch c.spec.mk {
-		case mkAll, mkNil:
+		if st.matcherWouldAccept(c, r) {
 			return r
-		case mkType, mkGated:
-			if r.info.Typ == p.AcceptTyp() {
-				return r
-			}
-		case mkRejectN:
-			if r.info.Typ == p.AcceptTyp() {
-				return r
-			}
+		}
+	}
+	return nil
+}
+
+func (st *ccState) matcherWouldAccept(c *ccCall, r *rxRec) bool {
+	switch c.spec.mk {
+	case mkAll, mkNil:
+		return true
+	case mkType, mkGated, mkRejectN:
+		return r.info.Typ == st.cfg.p.AcceptTyp()
+	}
+	return false
+}
+
+// acceptableBy: a datagram the call's matcher would accept was taken from the socket no
+// later than virtual time t and before the call returned. Used where C11 only needs to
+// know that a response returned at a tie instant (context end, Close) is a real one:
+// *when* it must have arrived relative to the call is C10's clause and judged there, so a
+// client that reads ahead of its dispatcher is not C11's concern.
+func (st *ccState) acceptableBy(c *ccCall, t time.Duration) *rxRec {
+	for _, r := range st.rx {
+		if r.t > t || r.seq > c.retSeq || !st.eligibleFor(c, r) {
+			continue
+		}
+		if st.matcherWouldAccept(c, r) {
+			return r
 		}
 	}
 	return nil
@@ -528,6 +600,9 @@ func (st *ccState) oracleLiveness(v *vio) {
 		// write error: returns at once
 		for _, tx := range c.txs {
 			if tx.failed {
+				if c.err == nil && c.retT == tx.t && st.acceptableBy(c, tx.t) != nil {
+					continue // tie: an acceptable response was there at the instant the write failed
+				}
 				if c.retT != tx.t || c.err == nil {
 					v.add("T1-write-error", "call %d: WriteTo failed at t=%v but the call returned at t=%v with err=%v", c.id, tx.t, c.retT, c.err)
 				}
@@ -545,13 +620,13 @@ func (st *ccState) oracleLiveness(v *vio) {
 			if c.retT == at && !isCtxErr(c.err) {
 				// accepted alternatives at the tie instant
 				ok := false
-				if c.err == nil && st.acceptableIn(c, c.invT, at) != nil {
+				if c.err == nil && st.acceptableBy(c, at) != nil {
 					ok = true
 				}
 				if c.err != nil && p.IsNoResponse(c.err) && (c.invT+st.bound(c) == at || (firstClose != nil && firstClose.invT <= at)) {
 					ok = true
 				}
-				if c.err != nil && (p.IsInUse(c.err) || st.hadWriteFailure(c)) {
+				if c.err != nil && (st.refused(c) || st.hadWriteFailure(c)) {
 					ok = true
 				}
 				if c.err != nil && firstClose != nil && firstClose.invT <= at {
@@ -569,10 +644,10 @@ func (st *ccState) oracleLiveness(v *vio) {
 				if c.retT > tx {
 					v.add("T3-late", "call %d: client closed at t=%v but the call returned at t=%v (err=%v)", c.id, tx, c.retT, c.err)
 				} else if c.err == nil {
-					if st.acceptableIn(c, c.invT, tx) == nil {
+					if st.acceptableBy(c, tx) == nil {
 						v.add("T3-error", "call %d: returned a message at the close instant t=%v without an acceptable delivery", c.id, tx)
 					}
-				} else if !p.IsNoResponse(c.err) && !p.IsInUse(c.err) && !st.hadWriteFailure(c) {
+				} else if !p.IsNoResponse(c.err) && !st.refused(c) && !st.hadWriteFailure(c) {
 					// "with the no-response error when the client is closed": demanded of a call that
 					// provably sat in its wait when Close was called (transmitted, timer and context
 					// strictly later, nothing accepted); at a try boundary or context end falling on
@@ -629,7 +704,17 @@ func (st *ccState) oracleLiveness(v *vio) {
 				overlapping = true // a concurrent Close is still in progress: only the last one to return is judged
 			}
 		}
-		if c.liveSUT != 0 && !overlapping {
+		// A call still on its way out when Close returns may own helper goroutines that end
+		// with it (a per-call retransmitter, say): "leaving no goroutine behind" is then decided
+		// where the property observes it, at the end of the run (rule goroutine-leak), not at
+		// this instant. With no call in flight every client goroutine must be gone right here.
+		inFlight := false
+		for _, k := range st.calls {
+			if k.invSeq < c.retSeq && (!k.returned || k.retSeq > c.retSeq) {
+				inFlight = true
+			}
+		}
+		if c.liveSUT != 0 && !overlapping && !inFlight {
 			v.add("T6-leak", "Close returned at #%d while %d goroutine(s) started by the client were still alive", c.retSeq, c.liveSUT)
 		}
 	}
@@ -653,7 +738,7 @@ func (st *ccState) oracleRetry(v *vio) {
 		if !c.returned || c.caller != 0 || st.hadWriteFailure(c) {
 			continue
 		}
-		if p.IsInUse(c.err) {
+		if st.refused(c) && st.idContended(c) {
 			continue
 		}
 		// every transmission: identical bytes, requested destination, exact offset
@@ -688,14 +773,25 @@ func (st *ccState) oracleRetry(v *vio) {
 		switch {
 		case acc != nil:
 			// accepted: returned at the hand-over instant, nothing transmitted afterwards (R4 covers tx)
-			if c.retT != acc.t {
+			// ... or, if a transmission of this call was still being written at that instant
+			// (a client may retransmit from a goroutine of its own and join it before
+			// returning), when that write returned: the statement gives no instant, C11's
+			// "as soon as" cannot mean abandoning a write in progress, and on the unchanged
+			// tree the case cannot arise (the caller itself writes)
+			inflight := acc.t
+			for _, tx := range c.txs {
+				if !tx.failed && tx.t <= acc.t && tx.doneT > inflight {
+					inflight = tx.doneT
+				}
+			}
+			if c.retT != acc.t && c.retT != inflight {
 				v.add("S-accept-late", "call %d: accepted serial %d at t=%v but returned at t=%v", c.id, acc.info.Serial, acc.t, c.retT)
 			}
 			if c.err != nil {
 				v.add("S-accept-err", "call %d: accepted a response but returned err=%v", c.id, c.err)
 			}
 			for _, tx := range c.txs {
-				if tx.invSeq > acc.doneSeq {
+				if tx.invSeq > acc.doneSeq && tx.t > acc.doneT { // same instant: a tie, see R4-tx-after-accept
 					v.add("S-tx-after-accept", "call %d: transmission at #%d after acceptance", c.id, tx.seq)
 				}
 			}
@@ -753,7 +849,7 @@ func (st *ccState) reachProbes() {
 		switch {
 		case c.err == nil:
 			s.Probe("call-returned-response")
-		case p.IsInUse(c.err):
+		case st.refused(c):
 			s.Probe("call-refused-id-in-use")
 		case p.IsNoResponse(c.err):
 			s.Probe("call-no-response")
